@@ -81,8 +81,8 @@ func testSkipped(testID, runOnly string) bool {
 }
 
 func isFileSkipped(dir, filename, runOnly string) bool {
-	// When a file is skipped through CLI with -run flag we can track it
-	if runOnly == "" {
+	// When a file is skipped through CLI with -run flag or through snaps.Skip* we can track it
+	if runOnly == "" && len(skippedTests.values) == 0 {
 		return false
 	}
 
@@ -100,6 +100,17 @@ func isFileSkipped(dir, filename, runOnly string) bool {
 			continue
 		}
 
+		// If a TestFunction inside the file was skipped with snaps.Skip* its snapshots are kept
+		for _, name := range skippedTests.values {
+			if name == funcDecl.Name.String() || strings.HasPrefix(name, funcDecl.Name.String()+"/") {
+				return true
+			}
+		}
+
+		if runOnly == "" {
+			continue
+		}
+
 		// If the TestFunction is inside the file then it's not skipped
 		matched, _ := regexp.MatchString(runOnly, funcDecl.Name.String())
 		if matched {
@@ -107,5 +118,5 @@ func isFileSkipped(dir, filename, runOnly string) bool {
 		}
 	}
 
-	return true
+	return runOnly != ""
 }
